@@ -1,3 +1,4 @@
+import F3.Proofs.NodeGen2
 import F3.Proofs.EquivSys
 import F3.Proofs.EquivHost
 /-!
@@ -359,4 +360,50 @@ example :
 
 end HostLevel
 
+end F3.Props.C12
+
+/-! # Regenerated, second set (appended): ties to `tools/go2lean/targets.d/*2.json` -/
+namespace F3.Props.C12
+section Regenerated2
+open F3.Equiv
+/-! ## Regenerated (2): the equivocation filter and the broadcast path as they stand in `equivocation.go` / `host.go`
+
+Proved in `F3/Proofs/NodeGen2.lean` against `F3/Gen/Equiv2.lean` (`targets.d/Equiv2.json`). -/
+
+/-- `ProcessBroadcast` of the model = the regenerated function (return code + action trace), every
+filter and message (statement: `F3.Gen2Tie.processBroadcast_is_regenerated`) -/
+theorem process_broadcast_is_regenerated : type_of% @F3.Gen2Tie.processBroadcast_is_regenerated :=
+  @F3.Gen2Tie.processBroadcast_is_regenerated
+
+/-- `ProcessReceive` of the model = the regenerated function -/
+theorem process_receive_is_regenerated (f : Filter) (p : Peer) (m : Msg) :
+    f.processReceive p m =
+      F3.Gen2Tie.receiveActs f p m
+        (F3.Gen.Equiv2.processReceive f.cur m.inst (alookup m.key f.seen).isSome
+          (alookup m.sender f.active).isSome
+          (match alookup m.key f.seen with | some info => info.sig == m.sig | none => true)).2 :=
+  F3.Gen2Tie.processReceive_is_regenerated f p m
+
+/-- filter → WAL append → publish: the calls of `BroadcastMessage` / `rebroadcastMessage` in source order -/
+theorem broadcast_call_order_is_regenerated :
+    F3.Gen.Equiv2.callSites.map (·.2.1) =
+      ["ProcessBroadcast", "Append", "Publish", "ProcessBroadcast", "Publish"] :=
+  F3.Gen2Tie.broadcast_call_order
+
+/-- … and the model's crash points follow that order (statement: `F3.Gen2Tie.broadcast_model_order`) -/
+theorem broadcast_model_order : type_of% @F3.Gen2Tie.broadcast_model_order :=
+  @F3.Gen2Tie.broadcast_model_order
+
+/-- `keepInstancesInWAL = 5`: guard and purge epoch on a certificate -/
+theorem wal_purge_epoch_is_regenerated (c : Nat) (hc : c < 2 ^ 64) :
+    (if F3.Gen.Equiv2.walPurgeGuard c then some (F3.Gen.Equiv2.walPurgeEpoch c).toNat else none) =
+      (if c > 5 then some (c - 5) else none) :=
+  F3.Gen2Tie.wal_purge_epoch_is_regenerated c hc
+
+example : (F3.Gen.Equiv2.processBroadcast 5 4 false false false true).1 = 0 ∧
+    (F3.Gen.Equiv2.processBroadcast 5 6 false false false true) = (1, 6, [1, 2, 3, 40, 5]) ∧
+    (F3.Gen.Equiv2.processBroadcast 5 5 true true false false) = (0, 5, []) ∧
+    (F3.Gen.Equiv2.processBroadcast 5 5 true false true false) = (2, 5, [41, 5]) := by decide
+
+end Regenerated2
 end F3.Props.C12
